@@ -246,6 +246,9 @@ func makeField(v reflect.Value, params fieldParameters) (encoder, error) {
 
 		case reflect.Struct:
 			structType := fieldType
+			if structType.NumField() == 0 {
+				return nil, fmt.Errorf("ber: unsupported type %s", fieldType.String())
+			}
 			if structType.Field(0).Name == "Value" {
 				// Non struct type
 				// fmt.Println("Non struct type")
